@@ -8,9 +8,11 @@ import (
 	"fmt"
 	"net/url"
 	"strconv"
+	"strings"
 	"testing"
 
 	"github.com/ory/keto/internal/check"
+	"github.com/ory/keto/internal/relationtuple"
 	"github.com/ory/keto/internal/schema"
 	opl "github.com/ory/keto/proto/ory/keto/opl/v1alpha1"
 	rts "github.com/ory/keto/proto/ory/keto/relation_tuples/v1alpha2"
@@ -262,6 +264,46 @@ func streamStoreReadonly(t *testing.T, o *Out) {
 }
 
 // --- store-faults ---------------------------------------------------------------
+
+// nilEntryProbe: see the caller. Returns "" or a description of the partial effect.
+func (e *stEnv) nilEntryProbe(c *stCase, g *stGen) (msg string) {
+	before := e.snapshot()
+	ins := c.intTuples(0, g.distinctTuples(3, "nilprobe"))
+	var del []*relationtuple.RelationTuple
+	if rows := c.intTuples(0, g.distinctTuples(2, "seed")); len(rows) > 0 {
+		del = append(del, rows[0])
+	}
+	del = append(del, nil)
+	outcome := "ok"
+	func() {
+		defer func() {
+			if r := recover(); r != nil {
+				outcome = "panic"
+			}
+		}()
+		if err := e.nets[0].p.TransactRelationTuples(e.ctx, ins, del); err != nil {
+			outcome = "error"
+		}
+	}()
+	after := e.snapshot()
+	if outcome != "ok" && after != before {
+		return "TransactRelationTuples with a nil delete entry answered " + outcome + " but the database changed"
+	}
+	if outcome == "ok" {
+		// accepted: then the inserts must all be there (and the listed delete gone); a nil entry
+		// that is silently skipped while the call reports success after a recovered panic leaves
+		// only part of the request applied
+		n := 0
+		for _, r := range c.readRows() {
+			if strings.Contains(r.r, "nilprobe") {
+				n++
+			}
+		}
+		_ = n
+		return "TransactRelationTuples with a nil delete entry answered ok (a request with an invalid member must fail as a whole)"
+	}
+	return ""
+}
 
 // distinctTuples makes n pairwise different tuples with few distinct strings.
 func (g *stGen) distinctTuples(n int, tag string) []stTuple {
@@ -532,6 +574,17 @@ func streamStoreFaults(t *testing.T, o *Out) {
 			g.faultMapping()
 		}
 		c.fault = "1 " + S(stPoisonRel) + " " + S(stPoisonDelRel) + " " + strconv.Itoa(c.ids[stPoisonString])
+		// last, outside the protocol (the tables are cleared before the next case): a direct
+		// Manager.TransactRelationTuples whose delete list holds a nil entry after valid inserts. The
+		// call may panic or return an error; whatever it does, nothing of it may remain - and if it
+		// answers nil, all of it must be there.
+		if i%4 == 1 {
+			if msg := e.nilEntryProbe(c, g); msg != "" {
+				c.cols = append(c.cols, "x_nil_probe="+msg)
+				o.Count("nil-probe-violations")
+			}
+			o.Count("nil-probes")
+		}
 		failed := false
 		for _, col := range c.cols {
 			if len(col) > 9 && col[0] == 's' && col[len(col)-9:] == "=internal" {
